@@ -9,6 +9,7 @@ import (
 	"fmt"
 	"go/types"
 	"math/big"
+	"regexp"
 	"sort"
 	"strings"
 )
@@ -208,11 +209,12 @@ type Ctx struct {
 	strOrder []string
 	globals  map[string]Term
 	notes    map[string]bool // assumptions / dropped calls, recorded for evidence
+	defined  map[string]bool // names introduced by define-fun (macros: not usable inside triggers)
 	usesStr  bool
 }
 
 func newCtx() *Ctx {
-	c := &Ctx{sorts: map[string]*Sort{}, declared: map[string]bool{}, strLits: map[string]Term{}, globals: map[string]Term{}, notes: map[string]bool{}}
+	c := &Ctx{sorts: map[string]*Sort{}, declared: map[string]bool{}, strLits: map[string]Term{}, globals: map[string]Term{}, notes: map[string]bool{}, defined: map[string]bool{}}
 	c.emit("(declare-sort Str 0)")
 	c.emit("(declare-sort Err 0)")
 	c.emit("(declare-fun gs.len (Str) Int)")
@@ -233,7 +235,42 @@ func newCtx() *Ctx {
 
 func (c *Ctx) note(s string) { c.notes[s] = true }
 
-func (c *Ctx) emit(s string) { c.decls = append(c.decls, s) }
+func (c *Ctx) emit(s string) {
+	if strings.HasPrefix(s, "(assert (forall") && strings.Contains(s, ":pattern") {
+		s = c.dropUnsafePatterns(s)
+	}
+	if strings.HasPrefix(s, "(define-fun ") {
+		if f := strings.Fields(s[12:]); len(f) > 0 {
+			c.defined[f[0]] = true
+		}
+	}
+	c.decls = append(c.decls, s)
+}
+
+var patRe = regexp.MustCompile(` :pattern \((.*?)\)\)\)\)$`)
+var nameRe = regexp.MustCompile(`[A-Za-z_$.][A-Za-z0-9_$.!]*`)
+
+// dropUnsafePatterns removes the trigger annotation of a quantified assertion when the trigger mentions a
+// define-fun name (macros expand to arbitrary terms, which solvers reject inside patterns).
+func (c *Ctx) dropUnsafePatterns(s string) string {
+	i := strings.Index(s, " :pattern ")
+	if i < 0 {
+		return s
+	}
+	pats := s[i:]
+	for _, n := range nameRe.FindAllString(pats, -1) {
+		if c.defined[n] {
+			// (assert (forall (...) (! body :pattern ...)))  ->  (assert (forall (...) body))
+			j := strings.Index(s, "(! ")
+			if j < 0 {
+				return s
+			}
+			body := s[j+3 : i]
+			return s[:j] + body + "))"
+		}
+	}
+	return s
+}
 
 func (c *Ctx) freshName(hint string) string {
 	c.nfresh++
@@ -806,4 +843,24 @@ func (c *Ctx) opaqueIsNil(v Term) Term {
 		c.emit(fmt.Sprintf("(assert (%s %s))", fn, z.S))
 	}
 	return app(sortBool, fn, v)
+}
+
+// boxFns declares the injection of a concrete sort into an interface sort together with its partial inverse.
+func (c *Ctx) boxFns(from, iface *Sort) (box, unbox, is string) {
+	tag := sanitize(from.Name) + "." + sanitize(iface.Name)
+	box, unbox, is = "box."+tag, "unbox."+tag, "is."+tag
+	if !c.declared[box] {
+		c.declared[box] = true
+		c.emit(fmt.Sprintf("(declare-fun %s (%s) %s)", box, from.Name, iface.Name))
+		c.emit(fmt.Sprintf("(declare-fun %s (%s) %s)", unbox, iface.Name, from.Name))
+		c.emit(fmt.Sprintf("(declare-fun %s (%s) Bool)", is, iface.Name))
+		c.emit(fmt.Sprintf("(assert (forall ((v %s)) (! (and (= (%s (%s v)) v) (%s (%s v))) :pattern ((%s v)))))", from.Name, unbox, box, is, box, box))
+		c.emit(fmt.Sprintf("(assert (forall ((i %s)) (! (=> (%s i) (= (%s (%s i)) i)) :pattern ((%s i)))))", iface.Name, is, box, unbox, unbox))
+		z := c.zero(iface, nil)
+		c.emit(fmt.Sprintf("(assert (not (%s %s)))", is, z.S))
+		// a boxed value is a non-nil interface
+		nilp := c.opaqueIsNil(Term{S: "i", Sort: iface})
+		c.emit(fmt.Sprintf("(assert (forall ((i %s)) (! (=> (%s i) (not %s)) :pattern ((%s i)))))", iface.Name, is, nilp.S, is))
+	}
+	return
 }
